@@ -265,7 +265,23 @@ def check_C08(chk):
                         'floats are the exactly representable ones (small dyadic rationals)']
 
 
-CHECKS = {'C08': check_C08, 'C11': check_C11, 'C10': check_C10, 'C01': check_C01, 'C02': check_C02, 'C03': check_C03}
+def check_C09(chk):
+    q = chk.tier == 'quick'
+    chk.rule = ('arith-int: every ordered pair of 25 integer literals straddling the representation boundaries (0, +-1..7, +-2^32, +-(sqrt(2^63)+), +-2^62, '
+                '+-(2^63-1), +-2^63, +-(2^63+1), +-2^64, +-2^70) x + - * % == < / and negation; expected digits come from BigNat (TLA+ school arithmetic). '
+                'arith-kinds: every ordered pair of 20 values of all kinds x + - * / % (null neutral, concatenation, right-biased union, recursive merge, '
+                'string repetition, array difference, string split, errors). int-consumers: each integer -3..4, 65 and +-2^70 as machine integer AND as '
+                'big integer x 16 integer-consuming operations (index, slices of arrays/text/bytes, limit, skip, range, nth, repetition, index update, has, '
+                'implode, comparison, object key, arithmetic). Every state is replayed on the real code.')
+    run_suite(chk, 'arith-int', 'MC_Vals', vals_cfg('arith-int', 2, ('WellFormed', 'NoUnsup')))
+    run_suite(chk, 'arith-kinds', 'MC_Vals', vals_cfg('arith-kinds', 2, ('WellFormed', 'NoUnsup')))
+    run_suite(chk, 'int-consumers', 'MC_Vals', vals_cfg('int-consumers', 2, ('WellFormed', 'NoUnsup')))
+    chk.extra['exhaustive'] = True
+    chk.assumptions += ['the IEEE-754 value of float results is specified only where it is a small dyadic rational, a signed zero, NaN or an infinity; '
+                        'other float results (e.g. 2^70 / 3) are not compared']
+
+
+CHECKS = {'C09': check_C09, 'C08': check_C08, 'C11': check_C11, 'C10': check_C10, 'C01': check_C01, 'C02': check_C02, 'C03': check_C03}
 
 
 def main():
